@@ -105,8 +105,12 @@ func genTier(a hx.Args, rng *hx.Rng, res *hx.Result, cc *hx.Cases, corpus [][]by
 		m[rng.Intn(len(m))] = []byte{0x00, 0x80, 0xc0, 0x81, 0x01, 0xff, 0xa0, 0x9f}[rng.Intn(8)]
 		accIn = append(accIn, m, enc[:rng.Intn(len(enc))])
 	}
+	stride := len(corpus) / 1200
+	if stride < 9 {
+		stride = 9
+	}
 	for i, b := range corpus {
-		if i%9 == 0 && len(b) <= 96 {
+		if i%stride == 0 && len(b) <= 96 {
 			accIn = append(accIn, b)
 		}
 	}
@@ -204,7 +208,7 @@ func genTier(a hx.Args, rng *hx.Rng, res *hx.Result, cc *hx.Cases, corpus [][]by
 		}
 	}
 	for i, b := range corpus {
-		if i%9 == 1 && len(b) <= 96 {
+		if i%stride == 1 && len(b) <= 96 {
 			txIn = append(txIn, b)
 		}
 	}
